@@ -70,7 +70,10 @@ func (p *Prog) verifyFunc(fn *ssa.Function, ct *Contract) (fx *Fx, err error) {
 				err = fmt.Errorf("%s: %s", fx.Name, e.msg)
 				return
 			}
-			panic(r)
+			if os.Getenv("GVC_PANIC") != "" {
+				panic(r)
+			}
+			err = fmt.Errorf("%s: internal error: %v", fx.Name, r)
 		}
 	}()
 	if fn.Blocks == nil {
@@ -81,6 +84,9 @@ func (p *Prog) verifyFunc(fn *ssa.Function, ct *Contract) (fx *Fx, err error) {
 		h := Sym("H!"+k.String()+"!0", k.HeapSort())
 		h.Epoch = 1
 		st.H[k] = h
+	}
+	for g, srt := range p.GhostDecls {
+		st.Ghost[g] = Sym("G!"+g+"!0", srt)
 	}
 	fr := &Frame{Fn: fn, Vals: map[ssa.Value]Val{}}
 	st.Frames = []*Frame{fr}
@@ -153,6 +159,30 @@ func (p *Prog) verifyFunc(fn *ssa.Function, ct *Contract) (fx *Fx, err error) {
 	res.T = resT
 	fx.bindResults(vars, res, resT, fn, ct)
 	post := &Env{fx: fx, st: fin, old: fx.Entry, vars: vars}
+	// ghost state: the contract's ghost updates define the new abstract state; everything else must be
+	// unchanged for every object that existed on entry
+	{
+		bodyGhost := map[string]*Term{}
+		for g, t := range fin.Ghost {
+			bodyGhost[g] = t
+		}
+		set := map[string]bool{}
+		for _, gs := range ct.GhostSets {
+			fin.Ghost[gs.Label] = coerceTo(p.elab(fx, gs.X, post).Scalar(), fin.Ghost[gs.Label].S)
+			set[gs.Label] = true
+		}
+		for g, t := range bodyGhost {
+			if set[g] || t == fx.Entry.Ghost[g] {
+				continue
+			}
+			if t.S.K == SArr && t.S.Idx == IntS {
+				o := Sym("fr!go!"+g, IntS)
+				fx.oblige(fin, "frame", "ghost:"+g, Implies(Not(UF("fresh!", BoolS, o)), Eq(Select(t, o), Select(fx.Entry.Ghost[g], o))), fn.Pos())
+			} else {
+				fx.oblige(fin, "frame", "ghost:"+g, Eq(t, fx.Entry.Ghost[g]), fn.Pos())
+			}
+		}
+	}
 	for _, u := range ct.Unfolds {
 		fx.assume(fin, p.unfoldInstance(fx, u, post))
 	}
